@@ -1,24 +1,35 @@
 """C13 - proof editing preserves the goal and keeps the partial proof checkable.   DESIGN.md section 6/C13
 
- S/I spec/C13_Editor.tla        identifier arithmetic of kernel/proof.py and the line edits of ProofState, with ghost uids;
-                                TLC explores all sequences of <= 3 (thorough 4) editing actions; invariants Contiguous,
-                                CitationsTrackItems, NoDanglingUnlessRemoved
- ->  harness/drivers/c13.py     recorded library proofs replayed step by step on real ProofState objects (live / on a copy), seeded
-                                perturbations (other methods, goals, facts, cut/cases/new_var/introduction/revert_intro), ProofCache
+ S/I spec/C13_Editor.tla        identifier arithmetic of kernel/proof.py and the line edits of ProofState (add / remove / cite /
+                                replace_id), with ghost uids, one level of nesting; TLC explores all sequences of <= 3 (thorough 4)
+                                editing actions; invariants Contiguous, CitationsTrackItems, NoDanglingUnlessRemoved,
+                                ReplacedCitationsFollow
+ S   spec/C13_LineEdit.tla      the same layer on blocks nested to any depth (C13_Lines.tla = the statements about one step);
+                                every behaviour of <= 2 (thorough: <= 3, and simulated ones of 8) actions is EMITTED and
+ ->  harness/drivers/c13.py       `lineedit`: performed on a real ProofState through add_line_before / remove_line / replace_id /
+                                  set_line, each step live or on a copy;
+                                  `edit`: recorded library proofs replayed step by step on real ProofState objects (live / on a
+                                  copy), seeded random walks of up to 4 further operations, ProofCache, and GENERATED editing
+                                  sessions on generated goals (sibling scopes binding one name at different types, several
+                                  exists_elim in one scope on copies, a cut cited from a later subproof then merged away, walks)
  T   spec/C13_EditorTrace.tla   after EVERY completed operation: Contiguous, CitationsVisibleEarlier, LastLineIsGoal, RecheckSucceeds,
-                                GapsAreExactlySorries, GoalPreserved, NoGapsAccepted, ExportImport, CopyIsolated; HistoryIntact
+                                GapsAreExactlySorries, GoalPreserved, NoGapsAccepted, ExportImport, CopyIsolated; HistoryIntact;
+                                line edits: Contiguous, CitationsTrackItems, NoDangling, CopyIsolated (divergence: code /= spec)
 """
 import copy
 import json
 import random
+from concurrent.futures import ThreadPoolExecutor
 
-from harness.core import (MachineryError, REPO, model_check, read_events, require, run_driver, seed, selftest_trace,
-                          spec_mutant, validate_trace, work_dir)
+from harness.core import (MachineryError, REPO, model_check, read_events, require, run_driver, seed, spec_mutant, tlc,
+                          validate_trace, work_dir, write_events)
 
 # theorems of logic_base itself are not used: while it is being built the theory does not yet contain the base logic
 # (the recorded proof of `trivial` needs the theorem `trivial`); the property quantifies over theories that contain it
 QUICK_THEORIES = ["logic", "set"]
 MORE = ["nat", "function", "list", "int", "real", "expr", "hoare"]
+SHAPES = ["sibling-binders", "exists-twice", "cut-merged"]
+LE_OFFSET = 10 ** 6
 
 
 def keyf(e):
@@ -28,61 +39,167 @@ def keyf(e):
     return e.get("key")
 
 
+def part(v, tids):
+    """the part of a verdict that concerns the events with the given tids"""
+    return {"consumed": len(tids), "fails": [f for f in v["fails"] if f["tid"] in tids],
+            "nontrivial": [t for t in v["nontrivial"] if t in tids], "divergences": [t for t in v["divergences"] if t in tids],
+            "states": 0, "wall": v.get("wall", 0)}
+
+
 def run(rep, tier):
     quick = tier == "quick"
-    wd = work_dir("C13", clean=True)
+    wd = work_dir("C13", "run", clean=True)
     rnd = random.Random(seed())
-    rep.rule = ("TLC: all sequences of <= %d editing actions (add/remove line, cite) on a 3-line proof with a block. Real code: every "
-                "recorded step of seeded library theorems replayed on ProofState (live or on a copy), seeded perturbations, ProofCache "
-                "insert_step; one event per completed operation, judged on 9 clauses. Non-trivial = every edit/cache event; distinct by "
-                "full projected state." % (3 if quick else 4))
+    rep.rule = ("TLC: all sequences of <= %d editing actions (add/remove line, cite, replace_id) on a 3-line proof with a block; all "
+                "behaviours of <= %d line edits on proofs with nested blocks, each one performed on a real ProofState (spec -> code). "
+                "Real code: every recorded step of seeded library theorems replayed on ProofState (live or on a copy), seeded random "
+                "walks of <= 4 operations, generated editing sessions, ProofCache insert_step; one event per completed operation, "
+                "judged on 9 clauses (line edits: 4). Non-trivial = every edit/cache event and every line edit that completed; "
+                "distinct by full projected state." % (3 if quick else 4, 2 if quick else 3))
     rep.assumptions = ["z3 steps are not re-run (check_z3 = False, as server/monitor.py)", "sequents are interned through the structural codec",
-                       "operations that raise are not judged (the property is conditional on completion); the driver continues from the state before"]
-    r = model_check("C13_Editor", "C13_Editor_small.cfg" if quick else "C13_Editor_deep.cfg", wd=wd / "mc", workers=4, timeout=3000)
-    rep.add_mc("C13_Editor", r, "MaxOps=%d" % (3 if quick else 4))
-    if r.violated:
-        rep.design_violation("C13_Editor", r)
-        return
-    rep.exhaustive = True
-    spec_mutant(rep, "add_line_does_not_renumber_prevs", "C13_Editor", "C13_Editor_small.cfg",
-                [("C13_Editor.tla", "ELSE MapItem(prf[i-1], inc, inc, 1)]", "ELSE MapItem(prf[i-1], inc, LAMBDA x : x, 1)]")],
-                ["CitationsTrackItems", "NoDanglingUnlessRemoved", "Contiguous"], wd=wd, workers=4)
+                       "operations that raise are not judged (the property is conditional on completion); the driver continues from the state before",
+                       "line edits: lines carry a stated sequent, so the editing functions' check_proof(compute_only=True) only checks the "
+                       "numbering; a citation left dangling by a plain remove_line of a cited line is not judged"]
     theories = list(QUICK_THEORIES)
     if quick:
         theories.append(rnd.choice(MORE[:5]))
-        n_per = 8
+        n_per, nsess = 8, 36
     else:
         theories += MORE
-        n_per = 60
+        n_per, nsess = 60, 600
     evp = wd / "edit.ndjson"
-    run_driver("c13", ["edit", evp, seed(), n_per, ",".join(theories)], timeout=7200)
+    # the library / session driver runs while TLC works on the line-edit layer
+    pool = ThreadPoolExecutor(max_workers=1)
+    fut = pool.submit(run_driver, "c13", ["edit", evp, seed(), n_per, ",".join(theories), nsess], timeout=7200)
+    try:
+        r = model_check("C13_Editor", "C13_Editor_small.cfg" if quick else "C13_Editor_deep.cfg", wd=wd / "mc", workers=2, timeout=3000)
+        rep.add_mc("C13_Editor", r, "MaxOps=%d" % (3 if quick else 4))
+        if r.violated:
+            rep.design_violation("C13_Editor", r)
+            return
+        logs = []
+        runs = [("C13_LineEdit_small.cfg", "all behaviours of <= 2 actions, 12 lines, blocks nested twice", None)]
+        if not quick:
+            runs.append(("C13_LineEdit_deep.cfg", "all behaviours of <= 3 actions, 6 lines", None))
+            runs.append(("C13_LineEdit_inv.cfg", "invariants only, <= 4 actions, 12 lines", None))
+            runs.append(("C13_LineEdit_sim.cfg", "simulated behaviours of 8 actions", "num=3000"))
+        for cfg, what, sim in runs:
+            if sim:
+                rl = tlc("C13_LineEdit", cfg, wd=wd / "mc", simulate=sim, depth=12, seed_=seed() + 1, timeout=3000)
+                require(rl.rc == 0 or rl.violated, "C13_LineEdit simulation failed: %s" % rl.error)
+            else:
+                rl = model_check("C13_LineEdit", cfg, wd=wd / "mc", workers=1, timeout=6000)
+            rep.add_mc("C13_LineEdit(%s)" % what, rl, cfg)
+            if rl.violated:
+                rep.design_violation("C13_LineEdit", rl)
+                return
+            logs.append(rl.out)
+        rep.exhaustive = True
+        (wd / "lineedit_vectors.log").write_text("\n".join(logs))
+        lep = wd / "lineedit.ndjson"
+        run_driver("c13", ["lineedit", wd / "lineedit_vectors.log", lep, seed()], timeout=7200)
+        spec_mutant(rep, "add_line_does_not_renumber_prevs", "C13_Editor", "C13_Editor_small.cfg",
+                    [("C13_Editor.tla", "ELSE MapItem(prf[i-1], inc, inc, 1)]", "ELSE MapItem(prf[i-1], inc, LAMBDA x : x, 1)]")],
+                    ["CitationsTrackItems", "NoDanglingUnlessRemoved", "Contiguous"], wd=wd, workers=2)
+        spec_mutant(rep, "lineedit_replace_id_same_level_only", "C13_LineEdit", "C13_LineEdit_small.cfg",
+                    [("C13_LineEdit.tla", "IF LPrevs(p[i])[k] = old THEN new", "IF LPrevs(p[i])[k] = old /\\ Len(LId(p[i])) = Len(old) THEN new")],
+                    ["CitationsTrackItems", "NoDangling"], wd=wd, workers=1)
+        if not quick:
+            spec_mutant(rep, "replace_id_same_level_only", "C13_Editor", "C13_Editor_small.cfg",
+                        [("C13_Editor.tla", "p1 == [i \\in 1..Len(prf) |-> MapItem(prf[i], same, re, 1)]",
+                          "p1 == [i \\in 1..Len(prf) |-> MapItem(prf[i], same, re, 0)]")], ["ReplacedCitationsFollow"], wd=wd, workers=2)
+        fut.result()
+    finally:
+        pool.shutdown(wait=True)
     evs = read_events(evp)
-    v = validate_trace("C13_EditorTrace", evp, wd=wd / "tv", nchunks=1 if quick else 3)
-    rep.add_trace_result("edit", evs, v, keyf=keyf, sample_n=1)
+    les = read_events(lep)
+    for e in les:
+        e["tid"] += LE_OFFSET
+    allp = wd / "all.ndjson"
+    write_events(allp, evs + les)
+    v = validate_trace("C13_EditorTrace", allp, wd=wd / "tv", nchunks=1 if quick else 4)
+    rep.states += v.get("states", 0)
+    rep.add_trace_result("edit", evs, part(v, {e["tid"] for e in evs}), keyf=keyf, sample_n=1)
+    rep.add_trace_result("lineedit", les, part(v, {e["tid"] for e in les}), sample_n=1)
     rep.samples = [{"trace": s["trace"], "event": {k: x for k, x in s["event"].items() if k not in ("expimp", "copy", "before", "after", "expect")}}
                    if isinstance(s.get("event"), dict) else s for s in rep.samples]
     rep.notes["theories"] = theories
-    # binding self-tests: break the numbering / drop a reported gap / change the original under a copy
-    bad = []
-    for e in evs:
-        if e["kind"] == "edit" and e["recheck"][0] and len(e["lines"]) >= 4 and len(bad) < 1:
-            c = copy.deepcopy(e)
-            c["lines"][2][0][-1] += 1
-            c["tid"] = 10 ** 6
-            bad.append(c)
-    selftest_trace(rep, "C13_EditorTrace", bad, "Contiguous", wd=wd)
-    bad = []
-    for e in evs:
-        if e["kind"] == "edit" and e["recheck"][0] and e["sorries"] and len(bad) < 1:
-            c = copy.deepcopy(e)
-            c["recheck"][1] = c["recheck"][1][1:]
-            c["tid"] = 10 ** 6 + 1
-            bad.append(c)
-    selftest_trace(rep, "C13_EditorTrace", bad, "GapsAreExactlySorries", wd=wd)
+    # ---- what was exercised (counts only)
     ne = sum(1 for e in evs if e["kind"] == "edit")
     nc = sum(1 for e in evs if e["kind"] == "cache")
-    rep.notes["events_by_kind"] = {"edit": ne, "cache": nc}
-    require(ne >= (100 if quick else 2000) and nc >= 1, "C13: too few events (vacuity guard): %d edit, %d cache" % (ne, nc))
+    nle = sum(1 for e in les if not e["raised"])
+    rep.notes["events_by_kind"] = {"edit": ne, "cache": nc, "lineedit": len(les), "lineedit_raised": len(les) - nle}
+    rep.notes["lineedit_ops"] = {op: sum(1 for e in les if e["op"][0] == op) for op in ("add", "remove", "cite", "replace")}
+    rep.notes["lineedit_on_copy"] = sum(1 for e in les if e["copy"][0])
+    rep.notes["lineedit_max_depth"] = max([e["depth"] for e in les] or [0])
+    sess = {}
+    for e in evs:
+        if e.get("session") and e.get("done"):
+            d = sess.setdefault(e["shape"], {"completed": 0, "shape_occurred": 0})
+            d["completed"] += 1
+            d["shape_occurred"] += 1 if e.get("shape_ok") else 0
+    rep.notes["generated_sessions"] = {"asked": nsess, "by_shape": sess,
+                                       "events": sum(1 for e in evs if e.get("session")),
+                                       "walk_events": sum(1 for e in evs if e["kind"] == "edit" and e["route"].startswith("walk"))}
+    rep.notes["walk_depths"] = {str(d): sum(1 for e in evs if e["kind"] == "edit" and e["route"].startswith("walk") and e["route"].endswith(".%d" % d))
+                                for d in (1, 2, 3, 4)}
+    rep.notes["methods"] = {}
+    for e in evs:
+        if e["kind"] == "edit":
+            rep.notes["methods"][e["method"]] = rep.notes["methods"].get(e["method"], 0) + 1
+    rep.notes["copy_isolation_events"] = sum(1 for e in evs if e["kind"] == "edit" and e["copy"][0])
+    # ---- binding self-tests (one TLC run): break the numbering / drop a reported gap / change a printed argument of the original
+    # under a copy / redirect a citation after a line edit
+    bad = []
+
+    def corrupt(pred, change, clause):
+        for e in evs + les:
+            if pred(e):
+                c = copy.deepcopy(e)
+                change(c)
+                c["tid"] = 2 * LE_OFFSET + len(bad)
+                bad.append((c, clause))
+                return
+        raise MachineryError("C13 self-test: no event to corrupt for clause %s" % clause)
+
+    def bump(c):
+        c["lines"][2][0][-1] += 1
+
+    def dropgap(c):
+        c["recheck"][1] = c["recheck"][1][1:]
+
+    def chgarg(c):
+        c["copy"][2]["exp"][0][2] += " x"
+
+    def recite(c):
+        for ln in c["after"]:
+            if ln[2]:
+                ln[2][0] = [x for x in (l[0] for l in c["after"]) if x != ln[2][0]][0]
+                return
+
+    corrupt(lambda e: e["kind"] == "edit" and e["recheck"][0] and len(e["lines"]) >= 4, bump, "Contiguous")
+    corrupt(lambda e: e["kind"] == "edit" and e["recheck"][0] and e["sorries"], dropgap, "GapsAreExactlySorries")
+    corrupt(lambda e: e["kind"] == "edit" and e["copy"][0] and e["copy"][2]["exp"], chgarg, "CopyIsolated")
+    corrupt(lambda e: e["kind"] == "lineedit" and not e["raised"] and e["op"][0] == "add" and any(ln[2] for ln in e["after"]), recite,
+            "CitationsTrackItems")
+    stp = wd / "selftest.ndjson"
+    write_events(stp, [c for c, _ in bad])
+    sv = validate_trace("C13_EditorTrace", stp, wd=wd / "selftest_tv", nchunks=1)
+    got = {f["tid"]: set(f["fail"]) for f in sv["fails"]}
+    for c, clause in bad:
+        require(clause in got.get(c["tid"], set()), "self-test: C13_EditorTrace accepted an event corrupted for clause %s (got %s)" % (
+            clause, sorted(got.get(c["tid"], []))))
+    rep.notes["selftests"] = [{"spec": "C13_EditorTrace", "corrupted_field_for": clause, "rejected": True} for _, clause in bad]
+    # ---- vacuity guards
+    require(ne >= (150 if quick else 3000) and nc >= 1, "C13: too few events (vacuity guard): %d edit, %d cache" % (ne, nc))
+    require(nle >= (3000 if quick else 30000), "C13: too few completed line edits (vacuity guard): %d of %d" % (nle, len(les)))
+    require(all(rep.notes["lineedit_ops"][op] >= 100 for op in rep.notes["lineedit_ops"]), "C13: a line-edit action is hardly exercised: %s" % rep.notes["lineedit_ops"])
+    done = sum(d["completed"] for d in sess.values())
+    require(done >= (nsess * 3 // 4) * 2 // 3, "C13: too few generated sessions completed: %d of %d scripted" % (done, nsess * 3 // 4))
+    for sh in SHAPES:
+        require(sess.get(sh, {}).get("shape_occurred", 0) >= (3 if quick else 30),
+                "C13: the session shape %s did not really occur often enough: %s" % (sh, sess.get(sh)))
+    require(rep.notes["walk_depths"]["3"] + rep.notes["walk_depths"]["4"] >= (5 if quick else 100), "C13: random walks never got deeper than 2: %s" % rep.notes["walk_depths"])
 
 
 def replay(path):
@@ -93,7 +210,6 @@ def replay(path):
     e = obj["event"]
     print("event", e.get("key"), "clause", obj["clause"])
     print("re-validating the recorded event; `./check C13 quick` re-executes the edits against the current tree")
-    from harness.core import write_events
     wd = work_dir("C13", "replay1", clean=True)
     write_events(wd / "ev.ndjson", [e])
     v = validate_trace("C13_EditorTrace", wd / "ev.ndjson", wd=wd / "tv", nchunks=1)
